@@ -1,7 +1,9 @@
 (* C10 model driver.
    recv <size> <srchex> <script>                 ConnectedDescriptor::Receive over a read() script
    <proto> <cap> <streamhex> <part>/<part>/...   parser fed the stream under several partitions *)
-let rec take_l k l = if k <= 0 then [] else match l with [] -> [] | x :: r -> x :: take_l (k - 1) r
+let take_l k l =
+  let rec go k l acc = if k <= 0 then List.rev acc else match l with [] -> List.rev acc | x :: r -> go (k - 1) r (x :: acc) in
+  go k l []
 let rec drop_l k l = if k <= 0 then l else match l with [] -> [] | _ :: r -> drop_l (k - 1) r
 
 let chunks_of (stream : n list) (part : string) : n list list =
@@ -23,19 +25,29 @@ let ust_i = function U_PRE -> 0 | U_LABEL -> 1 | U_LO -> 2 | U_HI -> 3 | U_BODY 
 let rst_i = function R_PRE -> 0 | R_TYPE -> 1 | R_LO -> 2 | R_HI -> 3 | R_HCRC -> 4 | R_BODY -> 5 | R_CRC -> 6
 
 (* generic over the parser: recv function, initial state, state printer, reference framer *)
-let run_gen recv init st_s summ refm stream parts =
+let run_gen ?(big = false) recv init st_s summ refm stream parts =
   let b = Buffer.create 256 in
   let agree = ref true in
   List.iteri (fun i part ->
     let chunks = chunks_of stream part in
-    let m = match feed recv init chunks with
+    (* big: megabyte chunks; only the variant whose fuel is computed by a left fold is used, and the
+       final result is read off the per-chunk trace *)
+    let trace = if big then feed_trace_tr recv init chunks else feed_trace recv init chunks in
+    let m =
+      if big then begin
+        let rec fin s acc = function
+          | [] -> summ (List.rev acc) s
+          | Done (s1, o1) :: r -> fin s1 (List.rev_append o1 acc) r
+          | Oob :: _ -> "OOB" | OutOfFuel :: _ -> "OUTOFFUEL" in
+        fin init [] trace end
+      else match feed recv init chunks with
       | Done (s, out) -> summ out s
       | Oob -> "OOB" | OutOfFuel -> "OUTOFFUEL" in
     if m <> refm then agree := false;
     let cnt = ref 0 in
-    let tr = List.map (fun r -> match r with
+    let tr = List.rev (List.rev_map (fun r -> match r with
       | Done (s, out) -> cnt := !cnt + List.length out; Printf.sprintf "%d@%s" !cnt (st_s s)
-      | Oob -> "OOB" | OutOfFuel -> "OUTOFFUEL") (feed_trace recv init chunks) in
+      | Oob -> "OOB" | OutOfFuel -> "OUTOFFUEL") trace) in
     Buffer.add_string b (Printf.sprintf "m%d=%s;s%d=%s;" i m i (join "," tr))) parts;
   Buffer.add_string b (Printf.sprintf "agree=%s" (bool01 !agree));
   (Buffer.contents b, refm)
@@ -85,7 +97,7 @@ let handle (p : string) : string =
     let ok body = not (List.mem body bad) in
     let (rm, rc) = ref_rpc ok stream in
     let refm = rpc_summary rm rc in
-    let (r, _) = run_gen (p_recv ok) p_init
+    let (r, _) = run_gen ~big:true (p_recv ok) p_init
         (fun s -> if s.p_closed then "X" else
             Printf.sprintf "e%dc%dh%d" (int_of_n s.p_exp) (if int_of_n s.p_exp = 0 then 0 else int_of_n s.p_cur)
               (List.length s.p_hdr))
